@@ -24,7 +24,9 @@ and are not listed; the dereferences belong to C18.)  Each site is keyed by
 and compared with tools/panic_inventory.json, where every key is mapped to what discharges it:
   by = "guard"     a check in the same function, quoted in "guard"; the quoted text (whitespace-normalised) must
                    still occur in the body of that function, otherwise the tie is broken ("vanished guard")
-  by = "lemma"     a Lean theorem (name in "lemma") about the model of that function
+  by = "lemma"     Lean theorem(s) (fully qualified names in "lemma": [..]) about the model of that function; every name
+                   must occur in the "theorems" list of some props/*.json (so ./check builds and axiom-audits it);
+                   entries of other kinds may carry a "lemma" list too, it is checked the same way
   by = "contract"  an external contract (caller protocol of the C API, crate invariant, type invariant), stated in "text"
   by = "const"     the operands are constants / the value is constructed a few lines above, stated in "text"
   by = "not-built" the file is not compiled for the verified target (wasm32-only / feature off)
@@ -407,7 +409,18 @@ def main():
     if os.path.exists(INVENTORY):
         inv = json.load(open(INVENTORY))
     listed = {}
-    problems = {"new": [], "vanished": [], "count": [], "undischarged": [], "guard": []}
+    problems = {"new": [], "vanished": [], "count": [], "undischarged": [], "guard": [], "lemma": []}
+    # every lemma an entry names must be a theorem some property lists (props/*.json "theorems"): those are built and
+    # axiom-audited by ./check, so a removed or renamed theorem breaks this tie
+    known_theorems = set()
+    props_dir = os.path.join(HERE, "..", "props")
+    if os.path.isdir(props_dir):
+        for fn in sorted(os.listdir(props_dir)):
+            if fn.endswith(".json"):
+                try:
+                    known_theorems.update(json.load(open(os.path.join(props_dir, fn))).get("theorems", []))
+                except Exception:
+                    pass
     valid_by = {"guard", "lemma", "contract", "const", "not-built", "finding"}
     for e in inv["sites"]:
         k = (e["file"], e["fn"], e["kind"], e["expr"])
@@ -415,6 +428,14 @@ def main():
         d = e.get("discharge") or {}
         if d.get("by") not in valid_by or not (d.get("text") or d.get("guard") or d.get("lemma")):
             problems["undischarged"].append(k)
+        lemmas = d.get("lemma") or []
+        if isinstance(lemmas, str):
+            lemmas = [lemmas]
+        if d.get("by") == "lemma" and not lemmas:
+            problems["lemma"].append((k, "<no lemma named>"))
+        for l in lemmas:
+            if l not in known_theorems:
+                problems["lemma"].append((k, l))
         if d.get("guard"):
             # quoted guard(s): each must still occur (whitespace-normalised) in the body of the function the site is in,
             # or of the function named by "guard_in": {"file": .., "fn": ..}
@@ -454,6 +475,7 @@ def main():
             "count_changed": [{"site": list(k), "listed": a, "found": b} for (k, a, b) in problems["count"]],
             "undischarged": [list(k) for k in problems["undischarged"]],
             "vanished_guards": [{"site": list(k), "guard": g} for (k, g) in problems["guard"]],
+            "unknown_lemmas": [{"site": list(k), "lemma": l} for (k, l) in problems["lemma"]],
             "findings": [{"site": [e["file"], e["fn"], e["kind"], e["expr"]], "text": e["discharge"].get("text", "")} for e in inv["sites"] if (e.get("discharge") or {}).get("by") == "finding"],
         }, indent=1, ensure_ascii=False))
         return 0 if ok else 1
@@ -469,6 +491,8 @@ def main():
         print(f"  NO DISCHARGE recorded: {k[0]} fn {k[1]} [{k[2]}]: {k[3]}")
     for (k, g) in sorted(problems["guard"]):
         print(f"  VANISHED GUARD `{g}`: {k[0]} fn {k[1]} [{k[2]}]: {k[3]}")
+    for (k, l) in sorted(problems["lemma"]):
+        print(f"  UNKNOWN LEMMA `{l}` (not in the theorem list of any props/*.json): {k[0]} fn {k[1]} [{k[2]}]: {k[3]}")
     print("panic_sites: " + ("inventory matches" if ok else "TIE BROKEN"))
     return 0 if ok else 1
 
